@@ -7,7 +7,7 @@ EQUIV="c07_disc_twice c12_resume_always c15_ping_full"
 miss=0; total=0
 run() { # name patch ids
   local name=$1 patch=$2 ids=$3
-  git -C /repo apply "$patch" || { echo "$name: patch does not apply"; return; }
+  git -C /repo apply "$PWD/$patch" || { echo "$name: patch does not apply"; return; }
   local caught=""
   for id in $ids; do
     out=$(timeout 1500 ./check $id --tier quick --no-evidence 2>&1); rc=$?
